@@ -85,6 +85,7 @@ type Master struct {
 	KillScript   func(t *SimTask) string                 // "ack" | "silent" | "" (= ack)
 	OnCall       func(call *scheduler.Call) (status int) // gate/fail individual calls; 0 = default
 	Reconcile    bool                                    // answer RECONCILE (default true)
+	LaunchGate   func(taskID string)                     // if set: called before TASK_RUNNING is reported (waits until the core knows the task)
 	subscribeN   int
 	closed       bool
 }
@@ -206,7 +207,7 @@ func (m *Master) handle(w http.ResponseWriter, r *http.Request) {
 		m.rec("MDecline", "fw", fw, "offers", ids)
 	case scheduler.Call_ACCEPT:
 		if !m.accept(fw, call.Accept) {
-			http.Error(w, "unsendable", 503)
+			http.Error(w, "unsendable", 400)
 			return
 		}
 	case scheduler.Call_ACKNOWLEDGE:
@@ -220,7 +221,7 @@ func (m *Master) handle(w http.ResponseWriter, r *http.Request) {
 		m.kill(fw, call.Kill.TaskID.Value)
 	case scheduler.Call_MESSAGE:
 		if !m.message(fw, call.Message) {
-			http.Error(w, "unsendable", 503)
+			http.Error(w, "unsendable", 400)
 			return
 		}
 	case scheduler.Call_TEARDOWN:
@@ -396,8 +397,19 @@ func (m *Master) update(fw string, t *SimTask, st mesos.TaskState, reason *mesos
 	if reason != nil {
 		r = reason.String()
 	}
-	m.rec("MUpdate", "task", t.ID, "state", st.String(), "reason", r)
+	m.rec("MUpdate", "task", t.ID, "class", ShortClass(t.Name), "state", st.String(), "reason", r)
 	m.send(fw, &scheduler.Event{Type: scheduler.Event_UPDATE, Update: &scheduler.Event_Update{Status: ts}})
+}
+
+// ShortClass extracts the task class name from a Mesos task name ("<repo>/tasks/<class>@<rev>#<id>").
+func ShortClass(name string) string {
+	if i := strings.Index(name, "@"); i >= 0 {
+		name = name[:i]
+	}
+	if i := strings.LastIndex(name, "/"); i >= 0 {
+		name = name[i+1:]
+	}
+	return name
 }
 
 func isTerminal(s mesos.TaskState) bool {
@@ -458,7 +470,7 @@ func (m *Master) accept(fw string, acc *scheduler.Call_Accept) bool {
 					}
 				}
 			}
-			logged = append(logged, map[string]interface{}{"task": t.ID, "name": t.Name, "agent": t.AgentID, "executor": t.ExecutorID,
+			logged = append(logged, map[string]interface{}{"task": t.ID, "class": ShortClass(t.Name), "agent": t.AgentID, "executor": t.ExecutorID,
 				"env": t.EnvID, "cpu": cpu, "mem": mem, "ports": ports, "mode": t.Mode})
 		}
 	}
@@ -473,6 +485,9 @@ func (m *Master) accept(fw string, acc *scheduler.Call_Accept) bool {
 				how = m.LaunchScript(t)
 			}
 			time.Sleep(m.Latency)
+			if m.LaunchGate != nil {
+				m.LaunchGate(t.ID)
+			}
 			switch how {
 			case "silent":
 			case "failed":
@@ -530,7 +545,7 @@ func (m *Master) kill(fw, id string) {
 		c = *t
 	}
 	m.mu.Unlock()
-	m.rec("MKill", "fw", fw, "task", id, "known", t != nil, "terminal", t != nil && c.Terminal)
+	m.rec("MKill", "fw", fw, "task", id, "class", ShortClass(c.Name), "known", t != nil, "terminal", t != nil && c.Terminal)
 	if t == nil {
 		return
 	}
@@ -692,8 +707,12 @@ func (m *Master) transition(fw string, cmd *controlcommands.MesosCommand_Transit
 			chans[k] = v
 		}
 	}
+	cls := ""
+	if t != nil {
+		cls = ShortClass(t.Name)
+	}
 	m.rec("MMessage", "cmd", cmd.Id.String(), "event", cmd.Event, "src", cmd.Source, "dst", cmd.Destination, "task", tg.TaskId.Value,
-		"env", cmd.EnvironmentId.String(), "argkeys", argKeys(cmd.Arguments), "chans", chans, "rn", cmd.Arguments["runNumber"],
+		"class", cls, "env", cmd.EnvironmentId.String(), "argkeys", argKeys(cmd.Arguments), "chans", chans, "rn", cmd.Arguments["runNumber"],
 		"outcome", string(out), "known", t != nil)
 	if t == nil {
 		return true
@@ -714,11 +733,11 @@ func (m *Master) transition(fw string, cmd *controlcommands.MesosCommand_Transit
 			m.update(fw, t, mesos.TASK_FAILED, nil, "task died during transition")
 			return
 		case ErrSrc:
-			m.rec("MReply", "cmd", cmd.Id.String(), "task", t.ID, "ok", false, "state", cmd.Source)
+			m.rec("MReply", "cmd", cmd.Id.String(), "task", t.ID, "class", cls, "ok", false, "state", cmd.Source)
 			m.reply(t, mk(fmt.Errorf("scripted transition failure of %s", t.ID), cmd.Source))
 		case ErrError:
 			m.setO2(t.ID, "ERROR")
-			m.rec("MReply", "cmd", cmd.Id.String(), "task", t.ID, "ok", false, "state", "ERROR")
+			m.rec("MReply", "cmd", cmd.Id.String(), "task", t.ID, "class", cls, "ok", false, "state", "ERROR")
 			m.reply(t, mk(fmt.Errorf("scripted transition failure of %s", t.ID), "ERROR"))
 		default:
 			if out == Foreign {
@@ -727,7 +746,7 @@ func (m *Master) transition(fw string, cmd *controlcommands.MesosCommand_Transit
 				m.reply(t, r)
 			}
 			m.setO2(t.ID, cmd.Destination)
-			m.rec("MReply", "cmd", cmd.Id.String(), "task", t.ID, "ok", true, "state", cmd.Destination)
+			m.rec("MReply", "cmd", cmd.Id.String(), "task", t.ID, "class", cls, "ok", true, "state", cmd.Destination)
 			m.reply(t, mk(nil, cmd.Destination))
 			if out == Dup {
 				m.reply(t, mk(nil, cmd.Destination))
